@@ -29,7 +29,11 @@ def run_step(step, pid, tier, seed):
 
 def _kani(step, pid, tier):
     group = step["group"]
-    cmd = [sys.executable, os.path.join(ROOT, "kani", "run_kani.py"), group, "--tier", tier, "--repo", vrun.REPO]
+    # `kani_tier` pins the harness list of the group (e.g. the c17 group: only the harnesses measured to finish within the
+    # memory limit are used; the larger ones exist in kani/loader_c17.rs and can be tried by hand with --tier thorough)
+    cmd = [sys.executable, os.path.join(ROOT, "kani", "run_kani.py"), group, "--tier", step.get("kani_tier", tier), "--repo", vrun.REPO]
+    if step.get("jobs"):
+        cmd += ["--jobs", str(step["jobs"])]
     res = {"failures": [], "undecided": [], "bounded": [], "obligations": 0, "discharged": 0, "samples": [],
            "cmd": " ".join(cmd), "trusted": ["Kani 0.68 / CBMC 6.11 (bit-precise bounded model checking of the compiled real functions)"],
            "assumptions": []}
